@@ -1,24 +1,36 @@
 /-
 Property C14 — every reachable tree is engine-consistent and structurally well-formed.
 
-Claimed at translation_validation level (the check walks every tree the real library returns);
-the theorems here are SUPPORTING results about the model:
+Claimed at proof level, partial.  Machine-checked:
   * `_finish_apply` (with all its merging and elision) preserves `Rel.EngineOK` and `Rel.WF`;
   * every tree built by an iteration-engine construction history is `WF` and `EngineOK`
     (`history_trees_wellformed`);
+  * every tree built by a construction history inside ONE SQL engine - unary operations, chains, joins with
+    automatic common columns, materializations - is `WF`, lives in that engine and is a coherent Select tree
+    (`sql_history_trees_wellformed`, from the C17 induction);
   * a successful `Join._begin_apply` resolves common columns that both operands have, and in the
     automatic case they are key columns (`join_common_columns_resolved`);
   * a transfer node created by `transferred_to` never connects an engine to itself
     (`transfer_never_to_same_engine`);
   * the documented no-op calls return the relation itself in an iteration engine
-    (`noop_calls_return_self`), and ill-formed calls raise (`Props/C20`).
+    (`noop_calls_return_self`), and ill-formed calls raise (`Props/C20`);
+  * a unary operation applied with ANY combination of preferred_engine / backtrack / transfer / require options to an
+    iteration-engine tree returns a well-formed relation in the target's engine or (transfer only) the preferred one
+    (`apply_with_options_wellformed`, from the back-tracking induction of C03);
   * inside the SQL engine, a unary operation applied to any raw SQL tree, and conforming one, return a
-    well-formed relation in the same engine (`sql_apply_wellformed`, `sql_conform_wellformed`; from the
-    induction over the engine's mutual tree-building recursion in `Lemmas/ConformSound.lean`).
-Not proved: the SQL engine's `join` factory path and back-tracking across engines.
+    well-formed relation in the same engine (`sql_apply_wellformed`, `sql_conform_wellformed`);
+  * the tree `Processor.process` returns for a tree over several iteration engines is `WF` and executable
+    (`Rel.IterOK`: operands of a chain share an engine, transfers lead from an iteration engine) and has the engine of
+    the input (`processed_trees_wellformed`).
+Not proved (validated by walking every tree the real library returns): `EngineOK` of the nodes INSIDE SQL-engine trees
+(expression support per node), back-tracking of joins, trees processed through a SQL engine.
 -/
 import DafRel.Lemmas.Build
 import DafRel.Lemmas.ConformSound
+import DafRel.Lemmas.JoinCommon
+import DafRel.Lemmas.SqlHistory
+import DafRel.Lemmas.ProcMulti
+import DafRel.Lemmas.Backtrack
 
 namespace DafRel.Props.C14
 
@@ -155,29 +167,8 @@ theorem history_trees_wellformed (σ : Leaves) (st : Store) (eng : Engine) (hk :
 /-- Automatic resolution of a join's common columns: key columns that both operands have. -/
 theorem join_common_columns_resolved (j : JoinOp) (lcols rcols common : Cols) (hr : j.resolved = false)
     (h : j.appliedCommonColumns lcols rcols = .ok common) :
-    (∀ t, t ∈ common → t ∈ lcols ∧ t ∈ rcols ∧ t.isKey = true) ∧ j.minCols.subset common = true := by
-  unfold JoinOp.appliedCommonColumns at h
-  simp only [hr, Bool.not_false, if_true] at h
-  have base : ∀ t, t ∈ Cols.keys (Cols.inter lcols rcols) → t ∈ lcols ∧ t ∈ rcols ∧ t.isKey = true := by
-    intro t hk
-    have := List.mem_filter.mp hk
-    have hin := List.mem_filter.mp this.1
-    exact ⟨hin.1, by simpa using hin.2, this.2⟩
-  cases hm : j.maxCols with
-  | none =>
-    simp only [hm] at h
-    by_cases hsub : j.minCols.subset (Cols.keys (Cols.inter lcols rcols)) = true
-    · simp only [hsub, if_true] at h
-      injection h with h; subst h
-      exact ⟨base, hsub⟩
-    · simp [hsub] at h
-  | some m =>
-    simp only [hm] at h
-    by_cases hsub : j.minCols.subset (Cols.inter (Cols.keys (Cols.inter lcols rcols)) m) = true
-    · simp only [hsub, if_true] at h
-      injection h with h; subst h
-      exact ⟨fun t ht => base t (List.mem_filter.mp ht).1, hsub⟩
-    · simp [hsub] at h
+    (∀ t, t ∈ common → t ∈ lcols ∧ t ∈ rcols ∧ t.isKey = true) ∧ j.minCols.subset common = true :=
+  appliedCommonColumns_resolved j lcols rcols common hr h
 
 /-- A transfer node created by `transferred_to` between iteration engines never connects an
 engine to itself. -/
@@ -229,5 +220,26 @@ theorem sql_conform_wellformed (σ : Leaves) (st : Store) (fuel : Nat) (t : Rel)
     (res.get t).WF ∧ (res.get t).engine = t.engine ∧ (res.get t).isSelect = true :=
   let C := ((treeBuild_sound σ st fuel).conform t res (raw_good σ t hwf htr hraw) h).2
   ⟨C.ok.wf, C.engine, C.ok.isSel⟩
+
+theorem sql_history_trees_wellformed (σ : Leaves) (st : Store) (eng : Engine) (hk : eng.kind = .sql)
+    (b : SqlBuild) (r : Rel) (hok : b.ok σ) (h : b.tree st eng = .ok r) :
+    r.WF ∧ r.engine = eng ∧ (∀ c, c ∈ r.columns ↔ c ∈ b.cols) :=
+  let B := sql_build_invariant σ st eng hk b r hok h
+  ⟨B.good.wf, B.engine, B.cols⟩
+
+theorem apply_with_options_wellformed (σ : Leaves) (st : Store) (fuel : Nat) (o : UOp) (t : Rel) (opts : Opts)
+    (res : Res) (hkt : t.engine.kind = .iter) (hpk : ∀ p, opts.pref = some p → p.kind = .iter)
+    (hwf : t.WF) (htr : t.Truthful σ) (hnd : o.isProj = true → t.spineNoDedup)
+    (h : applyOp st (fuel+1) (.u o) t opts = .ok res) :
+    (res.get t).WF ∧ ((res.get t).engine = t.engine ∨ (opts.transfer = true ∧ opts.pref = some (res.get t).engine)) :=
+  let A := applyOp_sound σ st fuel o t opts res hkt hpk hwf htr hnd h
+  ⟨A.wf, A.engine⟩
+
+theorem processed_trees_wellformed (σ : Leaves) (t : Rel) (fuel : Nat) (matAs : Option String) (s : ProcState)
+    (reg : Nat → Option (List Row)) (hm : t.MultiIter) (T : TreeInv σ reg t s) (hf : t.size ≤ fuel)
+    (res : Res) (b : Bool) (s' : ProcState) (h : (processRec σ fuel t matAs).run.run s = (.ok (res, b), s')) :
+    (res.get t).WF ∧ (res.get t).IterOK ∧ (res.get t).engine = t.engine := by
+  obtain ⟨_, _, P⟩ := process_multi_iter σ t fuel matAs s reg hm T hf res b s' h
+  exact ⟨P.inv.wf, P.inv.iterOK, P.engine⟩
 
 end DafRel.Props.C14
